@@ -111,6 +111,13 @@ package types
 //@ func Params.Validate(p) (err)
 //@   props C16 C12
 //@   ensures @fee_range err == nil ==> !isnil(p.ValidatorFee) && 0 <= dval(p.ValidatorFee) && dval(p.ValidatorFee) <= ONE
+//@   ensures @accepts_every_fee_in_range !isnil(p.ValidatorFee) && 0 <= dval(p.ValidatorFee) && dval(p.ValidatorFee) <= ONE ==> err == nil
+
+// Genesis validation of the stream module is the validation of its parameters (the streams themselves are not looked at).
+//@ func GenesisState.Validate(gs) (err)
+//@   props C15 C16
+//@   pure
+//@   ensures @accepts_exactly_valid_parameters (err == nil) == (!isnil(gs.Params.ValidatorFee) && 0 <= dval(gs.Params.ValidatorFee) && dval(gs.Params.ValidatorFee) <= ONE)
 
 // ---------------------------------------------------------------- abstract store (used by the keeper contracts)
 //
